@@ -4,7 +4,7 @@ import json
 import os
 import random
 import re
-from . import common, gen, shtools, project, projgen, ninjaparse
+from . import common, gen, shtools, project, projgen, ninjaparse, c06cdb
 
 LEVEL = 'proof'
 RULE = ('generated projects (libraries of all kinds, executables using them, per-target and global options with adversarial '
@@ -14,8 +14,16 @@ RULE = ('generated projects (libraries of all kinds, executables using them, per
         'W:emit: random scripts driven through the real builtins in an in-process build context (compile with header objects / pch / '
         'extra_deps / second output, static+shared libraries, executables sharing objects, command, single- and multi-output build_step, '
         'copy_file, alias, test, default, install); the Rule / Build tuples registered by the real Make and Ninja handlers compared with '
-        'Graph/Emit.v per edge and per script, and with each other (prerequisite sets, target sets)')
-TRUSTED = ('Ninja reader model (no ninja binary): harness/ninjaparse.py + Ninja/NinjaRead.v',
+        'Graph/Emit.v per edge and per script, and with each other (prerequisite sets, target sets). W:compdb: typed argument lists '
+        '(adversarial strings, Paths of 0-3 adversarial components in srcdir / builddir / absolute, jbos mixes of 2-4 bits, literal and '
+        'shell_literal objects, empty strs) under five source/build directory pairs through the real CompDB (arguments and command form); '
+        'in-process projects (global and per-target compile / link options, include directories in both roots, static + shared libraries, '
+        'executables, CFLAGS / LDFLAGS / LDLIBS / CPPFLAGS of the configure environment, Make and Ninja environments) whose compile and '
+        'link edges go through the real compdb, Make and Ninja handlers: entries and written command lines compared with Graph/CompDB.v, '
+        'registered arguments compared with the entry')
+TRUSTED = ('compilation-database model: a rule is abstracted to (tool command, always flags, global / per-target flag and library lists, '
+           'input and output paths) read from the same accessors the handlers call (harness/c06cdb.py compile_step / link_step)',
+           'Ninja reader model (no ninja binary): harness/ninjaparse.py + Ninja/NinjaRead.v',
            'emitter model: an Edge is abstracted to its attribute dump (harness/c03.py abstract_step); the spelling of .stamp / .dir '
            'names is taken from the real Path.addext / parent / append (C12)',
            'real GNU Make 4.3 and dash execute the Makefile with the compiler/linker/archiver replaced by the argv recorder',
@@ -224,6 +232,10 @@ def run(rep):
     rep.proof_stage(coqchk=thorough)
     dis = stage_flags_model(rep, rng, 400 if thorough else 100)
     found = 0
+    # the third emitter: Graph/CompDB.v against the real CompDB / compdb_compile / compdb_link and against the command lines
+    # the real Make and Ninja handlers write for the same step; model-independent oracle on the registered arguments
+    dis_c, bad_c = c06cdb.run_stages(rep, random.Random(rng.random()), thorough)
+    found += bad_c
     # the emitter model of C06_deps / C06_targets against the real Make and Ninja rule handlers (shared with C03), with
     # its model-independent comparison of the prerequisite sets and target sets the two handlers register
     from . import c03
@@ -244,6 +256,10 @@ def run(rep):
     if dis_e and not found:
         i, call, iv, mv = dis_e[0]
         rep.fail('W:%s - emitter model and real rule handler disagree (%d cases), e.g. %r: impl %r, model %r' % (call[0], len(dis_e), call[1], iv, mv),
+                 {'obligation': 'W:' + call[0], 'call': call, 'impl': iv, 'model': mv}, found_input=False)
+    if dis_c and not found:
+        i, call, iv, mv = dis_c[0]
+        rep.fail('W:%s - compilation-database model and implementation disagree (%d cases), e.g. %r: impl %r, model %r' % (call[0], len(dis_c), call[1], iv, mv),
                  {'obligation': 'W:' + call[0], 'call': call, 'impl': iv, 'model': mv}, found_input=False)
     if dis and not found:
         i, call, iv, mv = dis[0]
